@@ -153,6 +153,65 @@ class BadRepr(Exception):
         raise RuntimeError('no repr')
 
 
+# ---- the class of the exception a program raises is a dimension of its own ----
+class UserExc(Exception):
+    pass
+
+
+class UserBase(BaseException):
+    pass
+
+
+class UserInterrupt(KeyboardInterrupt):
+    pass
+
+
+class UserOOM(MemoryError):
+    pass
+
+
+EXC_POOL = {c.__name__: c for c in [
+    Exception, ValueError, TypeError, KeyError, IndexError, LookupError, AttributeError, ArithmeticError,
+    ZeroDivisionError, OverflowError, UnicodeError, RuntimeError, RecursionError, NotImplementedError,
+    AssertionError, ImportError, ModuleNotFoundError, EOFError, BufferError, StopIteration, StopAsyncIteration,
+    OSError, ConnectionError, ConnectionResetError, ConnectionAbortedError, ConnectionRefusedError, BrokenPipeError,
+    TimeoutError, FileNotFoundError, PermissionError, InterruptedError, BlockingIOError, ChildProcessError,
+    IsADirectoryError, ProcessLookupError,
+    GeneratorExit, KeyboardInterrupt, SystemExit, MemoryError,
+    UserExc, UserBase, UserInterrupt, UserOOM]}
+# the property's reading: these three (and their subclasses) are passed on to the server by design; what is
+# not an Exception at all (GeneratorExit, a direct BaseException subclass) is not the framework's to answer either
+PASS_BY_DESIGN = (KeyboardInterrupt, SystemExit, MemoryError)
+
+
+def passes_by_design(cls):
+    return issubclass(cls, PASS_BY_DESIGN) or not issubclass(cls, Exception)
+
+
+ORDINARY_NAMES = sorted(n for n, c in EXC_POOL.items() if not passes_by_design(c))
+ESCAPE_NAMES = sorted(n for n, c in EXC_POOL.items() if passes_by_design(c))
+
+
+def is_raise(d):
+    return d.get('k') in ('raise_exc', 'raise_fatal') or (d.get('k') == 'raise' and 'cls' in d)
+
+
+def exc_class(d):
+    """the class a raising program element (handler / hook result, iterable item, error-handler spec) raises"""
+    if d.get('k') == 'raise_fatal':
+        return FATAL[d['exc']]
+    if d.get('cls'):
+        return EXC_POOL[d['cls']]
+    return BadRepr if d.get('badrepr') else Boom
+
+
+def exc_instance(d):
+    cls = exc_class(d)
+    if cls is BadRepr:
+        return BadRepr()
+    return cls('fatal' if d.get('k') == 'raise_fatal' else 'eh' if d.get('k') == 'raise' else 'boom')
+
+
 class RecIter:
     def __init__(self, rec, oid, items):
         self._rec, self._id, self._items = rec, oid, iter(items)
@@ -167,9 +226,7 @@ class RecIter:
             return build(it['o'], self._rec)
         if it['k'] == 'raise_http':
             raise build_resp(it['r'], it['err'], self._rec)
-        if it['k'] == 'raise_fatal':
-            raise FATAL[it['exc']]('fatal')
-        raise Boom('boom')
+        raise exc_instance(it)
 
     def __repr__(self):
         return '<%s %d>' % (type(self).__name__, self._id)
@@ -199,10 +256,8 @@ class RecBox:
                 yield build(it['o'], self._rec)
             elif it['k'] == 'raise_http':
                 raise build_resp(it['r'], it['err'], self._rec)
-            elif it['k'] == 'raise_fatal':
-                raise FATAL[it['exc']]('fatal')
             else:
-                raise Boom('boom')
+                raise exc_instance(it)
 
     def __repr__(self):
         return '<%s %d>' % (type(self).__name__, self._id)
@@ -375,11 +430,7 @@ def run_prog(app, h, rec):
         if res.get('code') is None:
             ombott.redirect(res['loc'])
         ombott.redirect(res['loc'], res['code'])
-    if res['k'] == 'raise_fatal':
-        raise FATAL[res['exc']]('fatal')
-    if res.get('badrepr'):
-        raise BadRepr()
-    raise Boom('boom')
+    raise exc_instance(res)
 
 
 def other_verbs(method):
@@ -464,7 +515,7 @@ def build_app(case, rec):
                 return err.body
             if spec['k'] == 'same':
                 return err
-            raise Boom('eh')
+            raise exc_instance(spec)
         app.error(code)(handler)
     orig = app.to_route
 
@@ -597,7 +648,7 @@ def validated_call(app, environ, rec):
                         c = next(it)
                     except StopIteration:
                         break
-                    except Exception:
+                    except BaseException:       # a later item may raise any class (the server's business)
                         raised = True
                         break
                     if state['calls'] == 0:
@@ -707,16 +758,12 @@ def status_unmodelled(case):
 
 def model_skipped(case):
     """case kinds checked by the oracle only: error pages with debug=True (page text not modelled),
-    KeyboardInterrupt / SystemExit / MemoryError (let through by design), BaseResponse members outside the request path"""
+    BaseResponse members outside the request path"""
     if case['kind'] == 'respapi':
         return 'respapi'
     if case['kind'] in ('req', 'pair'):
         if (case.get('cfg') or {}).get('debug'):
             return 'debug'
-        found = []
-        walk(case, lambda d: found.append(1) if d.get('k') == 'raise_fatal' else None)
-        if found:
-            return 'fatal'
     return None
 
 
@@ -779,6 +826,15 @@ def type_text(o):
 BOOM_EJSON = json.dumps(repr(Boom('boom')))
 
 
+def enc_raise(d):
+    """a raise of the harness class Boom: the model's plain crash; of a pool class: the names of its __mro__
+    (the model decides from them and from the class tuples read from the source what the except clauses do)"""
+    cls = exc_class(d)
+    if cls in (Boom, BadRepr):
+        return [2] + S(BOOM_EJSON)
+    return [3] + enc_list([k.__name__ for k in cls.__mro__], S) + S(json.dumps(repr(exc_instance(d))))
+
+
 def enc_resp(r):
     code, line = status_of(r['status'])
     bt, bj = obj_texts(r['body'])
@@ -793,7 +849,7 @@ def enc_item(it):
         return [0] + enc_out(it['o'])
     if it['k'] == 'raise_http':
         return [1, int(it['err'])] + enc_resp(it['r'])
-    return [2] + S(BOOM_EJSON)
+    return enc_raise(it)
 
 
 def enc_out(o):
@@ -995,7 +1051,7 @@ def enc_hprog(h):
     elif res['k'] == 'redirect':
         r = redirect_result(res, muts)
     else:
-        r = [2] + S(BOOM_EJSON)
+        r = enc_raise(res)
     return enc_muts(muts) + r
 
 
@@ -1003,6 +1059,8 @@ def enc_eh(entry):
     code, spec = entry
     if spec['k'] == 'const':
         return [code, 0] + enc_out(spec['o'])
+    if spec['k'] == 'raise' and spec.get('cls'):
+        return [code, 4] + enc_list([k.__name__ for k in exc_class(spec).__mro__], S)
     return [code, {'body': 1, 'same': 2, 'raise': 3}[spec['k']]]
 
 
@@ -1092,8 +1150,9 @@ def decode(out, case):
         if tag == 0:
             return dict(status='ok', code=q.int(), line=T(q.str()))
         return dict(status={1: 'ValueError', 2: 'unmodelled', 3: 'IndexError'}.get(tag, 'tag%d' % tag))
-    if tag in (0, 1):
-        return dict(events=q.list(dec_event), escaped=tag == 1)
+    if tag in (0, 1, 2):
+        # 1: the catch-all is off / itself failed; 2: an exception the except clauses let through
+        return dict(events=q.list(dec_event), escaped=tag != 0)
     return dict(model_tag=tag)
 
 
@@ -1157,7 +1216,10 @@ def fails(h):
 
 
 def crashes(h):
-    return h['res']['k'] == 'raise_exc' or any(m['m'] == 'bad' for m in h['muts'])
+    """the program fails with an exception the framework has to answer with a 500"""
+    if any(m['m'] == 'bad' for m in h['muts']):
+        return True
+    return is_raise(h['res']) and not passes_by_design(exc_class(h['res']))
 
 
 def well_typed_iterables(case):
@@ -1181,6 +1243,14 @@ def well_typed_iterables(case):
                 ok[0] = False
     walk(case, f)
     return ok[0]
+
+
+def escape_by_design(case, name):
+    """the exception that left Ombott.__call__ is one the program raised and its class is one of
+    KeyboardInterrupt / SystemExit / MemoryError (or a subclass), or not an Exception at all"""
+    found = []
+    walk(case, lambda d: found.append(exc_class(d)) if is_raise(d) else None)
+    return any(c.__name__ == name and passes_by_design(c) for c in found)
 
 
 def oracle(case, obs):
@@ -1221,12 +1291,11 @@ def oracle(case, obs):
         return 'harness failure: %s' % obs
     if obs['escaped']:
         n_start = sum(1 for e in obs['events'] if e[0] == 'start')
-        if obs['escaped'] in FATAL:
-            # KeyboardInterrupt / SystemExit / MemoryError are passed on by design; the response must not have started
-            found = []
-            walk(case, lambda d: found.append(d['exc']) if d.get('k') == 'raise_fatal' else None)
-            if obs['escaped'] in found:
-                return 'start_response was called before %s was passed on' % obs['escaped'] if n_start else None
+        v = escape_by_design(case, obs['escaped'])
+        if v:
+            # KeyboardInterrupt / SystemExit / MemoryError (and what is not an Exception) are passed on by
+            # design; the response must not have started
+            return 'start_response was called before %s was passed on' % obs['escaped'] if n_start else None
         if not (case.get('cfg') or {}).get('catchall', True):
             # configured: exceptions go to the server, which must not see a started response
             return 'catchall=False: start_response was called and then %s escaped' % obs['escaped'] if n_start else None
@@ -1362,6 +1431,7 @@ class Ctx:
         self.next_id = 0
         self.edits = edits          # may programs call add_hook / remove_hook?
         self.redirects = edits      # may the handler call redirect()? (single-request cases only)
+        self.escapes = edits        # may programs raise KeyboardInterrupt / ... / a non-Exception? (C03's own cases only)
         self.next_hook = 10
 
     def oid(self):
@@ -1411,11 +1481,23 @@ def g_resp(c, depth, err):
                 body=body)
 
 
+def g_raise(c, site=None):
+    """a raise; the class is a dimension: Boom (the harness's own), any class of the pool.  StopIteration from
+    next() means "no more items", so it is no raise at that site."""
+    rng = c.rng
+    if rng.random() < 0.4:
+        return dict(k='raise_exc')
+    names = ESCAPE_NAMES if c.escapes and rng.random() < 0.25 else ORDINARY_NAMES
+    if site == 'item':
+        names = [n for n in names if n != 'StopIteration']
+    return dict(k='raise_exc', cls=rng.choice(names))
+
+
 def g_item(c, depth, first_kind=None):
     rng = c.rng
     r = rng.random()
     if r < 0.08:
-        return dict(k='raise_exc')
+        return g_raise(c, 'item')
     if r < 0.14 and depth > 0:
         return dict(k='raise_http', err=rng.random() < 0.6, r=g_resp(c, depth - 1, True))
     if r < 0.22 and depth > 0:
@@ -1534,7 +1616,7 @@ def g_hprog(c, depth, p_fail=0.3):
     rng = c.rng
     r = rng.random()
     if r < p_fail / 2:
-        res = dict(k='raise_exc')
+        res = g_raise(c)
     elif r < p_fail:
         e = rng.random() < 0.6
         res = dict(k='raise_http', err=e, r=g_resp(c, depth, e))
@@ -1556,7 +1638,7 @@ def g_hook(c):
     if r < 0.8:
         res = dict(k='ret', o=dict(k='falsy', v='none'))
     elif r < 0.9:
-        res = dict(k='raise_exc')
+        res = g_raise(c)
     else:
         e = rng.random() < 0.5
         res = dict(k='raise_http', err=e, r=g_resp(c, 1, e))
@@ -1583,7 +1665,10 @@ def g_case(rng, edits=True):
         for _ in range(rng.choice([1, 1, 2])):
             code = rng.choice([404, 405, 500, 500, 400, 503, 418, 999])
             k = rng.choice(['const', 'const', 'body', 'same', 'raise'])
-            eh.append([code, dict(k='const', o=g_out(c, 1)) if k == 'const' else dict(k=k)])
+            spec = dict(k='const', o=g_out(c, 1)) if k == 'const' else dict(k=k)
+            if k == 'raise' and rng.random() < 0.6:
+                spec['cls'] = g_raise(c).get('cls') or 'OSError'
+            eh.append([code, spec])
     extra = {}
     if not edits:
         pass
@@ -1597,7 +1682,7 @@ def g_case(rng, edits=True):
     if edits and rng.random() < 0.15:
         extra['proto'] = 'HTTP/1.0'
     if edits and rng.random() < 0.03:
-        # KeyboardInterrupt / SystemExit / MemoryError somewhere (oracle only)
+        # KeyboardInterrupt / SystemExit / MemoryError somewhere
         where = rng.choice(['handler', 'before', 'after'])
         fatal = dict(muts=[], res=dict(k='raise_fatal', exc=rng.choice(sorted(FATAL))))
         extra['_fatal'] = [where, fatal]
@@ -1820,6 +1905,20 @@ def corpus():
         cs.append(ret(hello, before=[dict(muts=[], res=f)], after=[OK_HOOK]))
         cs.append(ret(hello, after=[OK_HOOK, dict(muts=[], res=f)]))
         cs.append(ret(_iter(1, [dict(k='raise_exc')]), eh=[[500, dict(k='raise')]], routing=prog(f)))
+    # every class of the pool at every raise site: handler, before / after hook, route hook, first next() of the
+    # body (iterator and generator), error handler.  Only KeyboardInterrupt / SystemExit / MemoryError (subclasses
+    # included) and non-Exceptions may reach the server; everything else is answered.
+    for name in sorted(EXC_POOL):
+        f = dict(k='raise_exc', cls=name)
+        cs.append(ret(hello, routing=prog(f), before=[OK_HOOK], after=[OK_HOOK]))
+        cs.append(ret(hello, before=[dict(muts=[], res=f)], after=[OK_HOOK], json=name.startswith('C')))
+        cs.append(ret(hello, after=[OK_HOOK, dict(muts=[], res=f)]))
+        cs.append(ret(hello, routing=dict(k='ok', rhooks=[dict(muts=[], res=f)], h=dict(muts=[], res=dict(k='ret', o=hello)))))
+        if name != 'StopIteration':
+            cs.append(ret(_iter(1, [_str(''), f, _str('x')])))
+            cs.append(ret(_iter(1, [f], box='gen')))
+        cs.append(ret(_resp(418, hello, err=True), eh=[[418, dict(k='raise', cls=name)]]))
+        cs.append(ret(hello, routing=prog(f), method='HEAD', cfg=dict(via='ctor', catchall=False, debug=False)))
     for proto in ('HTTP/1.1', 'HTTP/1.0'):
         for loc in LOCATIONS[:4]:
             cs.append(ret(hello, proto=proto, routing=prog(dict(k='redirect', loc=loc, code=None))))
